@@ -248,6 +248,101 @@ def build():
         if rng.random() < 0.3:
             fs.insert(rng.randrange(len(fs) + 1), F("tmp", u8, transient="n42"))
         rec(f"R{i}", fs, steps)
+    # second generation: declarations produced by SIMULATING legal histories (any interleaving of FieldAdded anywhere
+    # in the struct, FieldMadeOptional, FieldRemoved, FieldMadeTransient), zero-width and transient fields, and
+    # enums with random shapes, transient constructors at any position, sorted or not, evolved variants
+    rng2 = random.Random(20261001)
+    dv = {"u8": "n3", "i8": "z-3", "u16": "n513", "i32": "z-4", "u64": "n10", "str": "b6464", "bool": "n1", "char": "n65",
+          "dstr": "b6464", "i128": "z-1", "f64": "n4607182418800017408", "unit": "(0)", "u32": "n70000", "i64": "z-5"}
+    vocab2 = [u8, P("i8"), P("u16"), i32, u64, s, b, ch, P("unit"), P("u32"), P("i64"), P("dstr"), P("i128"), P("f64"),
+              ("opt", u8), ("opt", s), ("opt", P("unit")), ("seq", "vec", 0, u8), ("seq", "vec", 0, s),
+              ("seq", "vec", 0, ("opt", u8)), ("tup", [u8, s]), ("tup", [P("unit")]), ("wrap", "box", i32), pt, ("opt", pt),
+              ("seq", "vec", 0, pt)]
+
+    def dflt2(t):
+        if t[0] == "prim":
+            return dv[t[1]]
+        if t[0] == "opt":
+            return "(0)" if rng2.random() < 0.5 else f"(1 {dflt2(t[1])})"
+        if t[0] == "seq":
+            return "b-" if t[3] == ("prim", "u8") else "(0)"
+        if t[0] == "tup":
+            return "(0 " + " ".join(dflt2(x) for x in t[1]) + ")"
+        if t[0] == "wrap":
+            return dflt2(t[2])
+        if t[0] == "named":
+            return "(0 z1 z2)"
+
+    def rand_body(nsteps, names, positional=False):
+        """fields + steps of a legal history; positional (tuple variant): fields are field0.. and only appended"""
+        pool = list(names)
+        fs, steps, gen = [], [], {}
+        for _ in range(rng2.choice([0, 1, 2, 3])):
+            t = rng2.choice(vocab2)
+            f = F(pool.pop(0), t, "Option" if t[0] == "opt" else None)
+            fs.append(f)
+            gen[f["name"]] = 0
+        if not positional and rng2.random() < 0.2:
+            t = rng2.choice([u8, s, ("opt", u8)])
+            fs.insert(rng2.randrange(len(fs) + 1), F("tmp", t, "Option" if t[0] == "opt" else None, transient=dflt2(t)))
+        for k in range(1, nsteps + 1):
+            c = rng2.random()
+            written = [f for f in fs if f["transient"] is None]
+            c0 = [f for f in written if gen.get(f["name"], 0) == 0]
+            removable = [f for f in written if gen.get(f["name"], 0) > 0] + ([c0[-1]] if c0 else [])
+            if c < 0.45 and pool:
+                t = rng2.choice(vocab2)
+                f = F(pool.pop(0), t, "Option" if t[0] == "opt" else None)
+                fs.insert(len(fs) if positional else rng2.randrange(len(fs) + 1), f)
+                gen[f["name"]] = k
+                steps.append(("add", f["name"], dflt2(t)))
+            elif c < 0.65:
+                cands = [f for f in written if f["ty"][0] != "opt"]
+                if not cands:
+                    continue
+                f = rng2.choice(cands)
+                f["ty"] = ("opt", f["ty"])
+                f["opt"] = True
+                f["spelling"] = rng2.choice(["Option", "Option", "std::option::Option"])
+                # the default of an earlier FieldAdded step is an expression of the field's declared (now Option) type
+                steps = [("add", st[1], f"(1 {st[2]})") if st[0] == "add" and st[1] == f["name"] else st for st in steps]
+                steps.append(("opt", f["name"]))
+            elif c < 0.85 and removable and not positional:
+                f = rng2.choice(removable)
+                fs.remove(f)
+                steps.append(("rem", f["name"]))
+            elif removable and not positional:
+                f = rng2.choice(removable)
+                f["transient"] = dflt2(f["ty"])
+                steps.append(("tra", f["name"]))
+        if positional:
+            ren = {f["name"]: f"field{i}" for i, f in enumerate(fs)}
+            for f in fs:
+                f["name"] = ren[f["name"]]
+            steps = [(st[0], ren.get(st[1], st[1])) + tuple(st[2:]) for st in steps]
+        return fs, steps
+
+    fnames = ["a", "b", "c", "d", "e", "f", "g", "h", "k", "m"]
+    for i in range(40):
+        fs, steps = rand_body(rng2.choice([0, 1, 2, 3, 4]), fnames)
+        rec(f"S{i}", fs, steps)
+    vpool = ["Apple", "DBError", "Data", "aardvark", "Zed", "Alpha", "Mid", "A1", "A_b", "Ab", "Z", "B2", "Beta", "b", "Url",
+             "Write", "Flush", "Read"]
+    for i in range(40):
+        vnames = rng2.sample(vpool, rng2.choice([1, 2, 3, 4, 5]))
+        variants = []
+        for vn in vnames:
+            shape = rng2.choice(["unit", "tuple", "struct", "struct"])
+            tr = rng2.random() < 0.2
+            if shape == "unit":
+                variants.append(var(vn, shape="unit", transient=tr))
+                continue
+            fs, steps = rand_body(0 if tr else rng2.choice([0, 0, 1, 2, 3]), fnames, positional=(shape == "tuple"))
+            if not fs:
+                variants.append(var(vn, shape="unit", transient=tr))
+            else:
+                variants.append(var(vn, fs, steps, transient=tr, shape=shape))
+        enum(f"T{i}", variants, rng2.random() < 0.4)
     return D
 
 
@@ -330,7 +425,12 @@ def emit(D):
                 elif v["shape"] == "tuple":
                     o.append(f"    {v['name']}({', '.join(rust_ty(f['ty'], f['spelling']) for f in v['fields'])}),")
                 else:
-                    o.append(f"    {v['name']} {{ {', '.join(f['name'] + ': ' + rust_ty(f['ty'], f['spelling']) for f in v['fields'])} }},")
+                    o.append(f"    {v['name']} {{")
+                    for f in v["fields"]:
+                        if f["transient"] is not None:
+                            o.append(f"        #[transient({rust_val(f['ty'], parse(f['transient']), D)})]")
+                        o.append(f"        {f['name']}: {rust_ty(f['ty'], f['spelling'])},")
+                    o.append("    },")
             o.append("}")
         o.append("")
     # conversions
